@@ -41,6 +41,14 @@ def run(ctx: Ctx) -> None:
     shutdown(ctx)
     unchanged(ctx)
     maintenance(ctx, "R-C03-MAINT")
+    from .runner import pause_lock_protocol, pause_rule, rabbit_pause_flag
+
+    with ctx.as_rule("R-C03-SHUTDOWN"):
+        # stopping pauses the consumers once more (run_one_queue), possibly while they are already paused by a saturated consume loop: pause must be
+        # idempotent and the pause flag protocol intact, or Worker.run never returns and the in-flight messages are never given back
+        pause_rule(ctx, "R-C03-SHUTDOWN")
+        pause_lock_protocol(ctx, "R-C03-SHUTDOWN")
+        rabbit_pause_flag(ctx, "R-C03-SHUTDOWN")
 
 
 def handoff(ctx: Ctx, rule="R-C03-HANDOFF") -> None:
